@@ -19,6 +19,9 @@ TARGETS = {  # mutant -> checks to run (first = the property it was seeded for)
     "C15-m5": ["C15", "C07"],
     "C18-m5": ["C18", "C02"],
     "C07-m7": ["C07", "C10", "C15"],
+    "C14-m7": ["C14", "C16"],
+    "C15-m7": ["C15", "C07"],
+    "C15-m8": ["C15", "C10"],
     "C10-m7": ["C10", "C07", "C15"],
     "C16-m7": ["C16", "C14"],
     "C16-m8": ["C16", "C14"],
